@@ -1241,7 +1241,7 @@ void run_type(TypeOps const& t)
         bool const zero = has_zero(sh);
         vf::label("shape.has_zero_extent", zero);
         vf::label("shape.mixed_static_dynamic(rank>=2)", mixed);
-        vf::label("shape.rank0", R == 0);
+        if (R == 0) { vf::count("shape.rank0 (one shape per rank-0 type)"); }
         vf::label("type.level_full(mdspan+mdarray)", t.md[0] != nullptr);
         vf::label("type.level_light_or_full(layout_stride)", t.stride != nullptr);
         auto nt = [&](bool extra) {
